@@ -11,7 +11,10 @@
      * _adapter_hook calls _lookup1 with Py_None as the default and then compares
        "default_ == result";
      * _getcache descends into the per-name sub-dictionary only if the name is true ('' is not).
-   Reference counting and allocation failures are not modelled (C11's subject).
+   Reference counting (the owned references to the cache dictionaries, to __self__ of a super
+   proxy ...) and allocation failures are not modelled (C11's subject); _lookup1 is written
+   "if (result != NULL) {substitute default} ... if (result == NULL) {call _lookup}" in the
+   source, which is the two-branch match below.
    Executable definitions only. *)
 From Coq Require Import List Arith Bool.
 Import ListNotations.
